@@ -239,6 +239,12 @@ func TestCheck(t *testing.T) {
 	}
 	lap("depth")
 
+	// ---- two creations with different init code in one frame ---------------------------------------------------
+	if on("create-pairs") {
+		k.createPairs(use)
+	}
+	lap("create-pairs")
+
 	// ---- every operand tuple of one instruction -------------------------------------------------------------------
 	if on("ops") {
 		progs := singleOps(run.Thorough())
